@@ -163,6 +163,54 @@ def run(ctx):
                 for k_ in list(sys.modules):
                     if k_.split(".")[0] == pkg:
                         del sys.modules[k_]
+    # paths given as pathlib objects (to the decorator of a data function, to dds.keep): under a restricted stage list nothing is
+    # committed at them either - on a fresh store they do not load, after an edit they still load the value of the last full run
+    for pi_, store_kind in enumerate(["local", "memory", "local_lru"]):
+        base = tempfile.mkdtemp(prefix="ddsverif_c15q_")
+        pkg = "c15q_%d_%d" % (os.getpid(), pi_)
+        try:
+            real.reset_process_state()
+            real.set_store(store_kind, os.path.join(base, "si"), os.path.join(base, "sd"))
+            tmpl = ("import dds\nimport pathlib\nfrom ddsverif_rt import log, term\n\nP = pathlib.Path('/pd/report')\nQ = pathlib.Path('/pd/sub/clean')\nK = pathlib.Path('/pd/kept')\n\n"
+                    "@dds.data_function(P)\ndef report():\n    log('report')\n    return term('report', %r)\n\n"
+                    "@dds.data_function(Q)\ndef clean():\n    log('clean')\n    return term('clean', %r)\n\n"
+                    "def leaf():\n    log('leaf')\n    return term('leaf', %r)\n\n"
+                    "def f0():\n    return term('f0', report(), clean(), dds.keep(K, leaf))\n")
+            paths = ["/pd/report", "/pd/sub/clean", "/pd/kept"]
+            committed = None          # the values of the last full run
+            for step, (v, k) in enumerate([("v1", 3), ("v1", 4), ("v1", 1), ("v1", 5), ("v2", 4), ("v2", 3), ("v2", 0), ("v2", 5)]):
+                os.makedirs(os.path.join(base, pkg), exist_ok=True)
+                open(os.path.join(base, pkg, "__init__.py"), "w").close()
+                with open(os.path.join(base, pkg, "main.py"), "w") as fh:
+                    fh.write(tmpl % (v, v, v))
+                real.load_world(base, pkg + ".main", None, accept=pkg)
+                r = real.run({"kind": "eval", "fun": "f0"}, {"stages": ORDER[:k]})
+                if k == 5:
+                    committed = {"/pd/report": "report(%s)" % v, "/pd/sub/clean": "clean(%s)" % v, "/pd/kept": "leaf(%s)" % v}
+                res.evaluations += 1
+                res.count("directed_pathlib_paths_steps")
+                res.nontrivial("pathlib paths %s %d" % (store_kind, step))
+                bad = None
+                if r["error"] is not None:
+                    bad = "the evaluation fails: %s" % (r["error"],)
+                else:
+                    for p_ in paths:
+                        lv = real.load_path(p_)
+                        if committed is None and lv.get("error") is None:
+                            bad = "the path %s loads (%r) although no evaluation with the path commit stage has run" % (p_, lv.get("value"))
+                        elif committed is not None and (lv.get("error") is not None or lv.get("value") != committed[p_]):
+                            bad = "the path %s loads as %s, the last full evaluation committed %r" % (p_, lv, committed[p_])
+                        if bad:
+                            break
+                if bad:
+                    res.violations.append({"what": "paths given as pathlib objects, evaluation restricted to the stages %s (code %s): %s" % (ORDER[:k], v, bad),
+                                           "input": {"source": tmpl % (v, v, v), "stages": ORDER[:k], "store": store_kind, "step": step}, "kf": None})
+                    break
+        finally:
+            shutil.rmtree(base, ignore_errors=True)
+            for k_ in list(sys.modules):
+                if k_.split(".")[0] == pkg:
+                    del sys.modules[k_]
     for wi in range(nworlds):
         # (every second pipeline reads back, with dds.load, paths it has just kept)
         w = progs.gen_world(rng, nfun=rng.randint(2, 6), allow=("call", "ref", "keep", "datafn", "shadow") + (("load",) if wi % 2 else ()))
